@@ -1,7 +1,7 @@
 CONSTANTS
   Verbs = {"get", "post", "put", "delete", "patch"}
   Rotate = FALSE
-  PathIds = {"none", "name1", "name2", "nameT", "par2", "two", "in2", "in4c", "cls2", "int1"}
+  PathIds = {"none", "name1", "name2", "nameT", "par2", "two", "in2", "in4c", "cls2", "clsS", "int1"}
   Bodies = {"", "*", "inner"}
   MaxExtra = 3
   ReqSetIds = {"none"}
